@@ -116,7 +116,10 @@ def main():
             if not (d / "meta.json").exists() or (only and not any(d.name.startswith(o) for o in only)):
                 continue
             meta = json.loads((d / "meta.json").read_text())
-            r = run_checks(d / "patch.diff", [meta["property"]], tier)[meta["property"]]
+            try:
+                r = run_checks(d / "patch.diff", [meta["property"]], tier)[meta["property"]]
+            except RuntimeError as e:  # a later fix: commit rewrote the lines the patch touches: the seed has to be re-based
+                r = {"rc": 3, "no_failing_input": False, "what": "STALE PATCH: " + str(e)[:160]}
             if meta.get("harmless"):
                 # a behaviour-preserving refactoring: the check should stay quiet; a broken proof / correspondence without a failing
                 # input is the permitted (but noted) outcome, a concrete "failing input" is a false alarm of the machinery
